@@ -117,7 +117,8 @@ def main():
     checks = []
     na = [dict(property_id=k, reason=v) for k, v in NA.items()]
     for pid, m in CHECKS.items():
-        if not os.path.exists(os.path.join(ROOT, "checks", pid.lower() + ".py")):
+        ready = open(os.path.join(ROOT, "tools", "ready.txt")).read().split()
+        if pid not in ready or not os.path.exists(os.path.join(ROOT, "checks", pid.lower() + ".py")):
             na.append(dict(property_id=pid, reason=UNDER_CONSTRUCTION))
             continue
         checks.append(dict(
